@@ -62,6 +62,15 @@ pub proof fn lemma_class_suspended_mono(a: Seq<CertAuthEvent>, e: CertAuthEvent,
         assert(a.push(e)[i] == a[i]);
     }
 }
+
+/// C06: the stored event refers only to a child and a resource class this CA knows (what CertAuth::apply unwraps, unit c06_apply)
+pub open spec fn ev_ok(ca: CertAuth, ev: CertAuthEvent) -> bool {
+    match ev {
+        CertAuthEvent::ChildCertificatesUpdated { resource_class_name, .. } => ca.resources@.contains_key(resource_class_name),
+        CertAuthEvent::ChildSuspended { child } => ca.children@.contains_key(child),
+        _ => true,
+    }
+}
 '''
 
 
@@ -109,6 +118,7 @@ impl CsrInfo { pub fn key_id(&self) -> KeyIdentifier { unimplemented!() } }
                 ('child', 'self.children@.contains_key(*child_handle) && *child == self.children@[*child_handle]'),
                 ('pairs', '''vx_it.seq().len() == self.resources@.len() && (forall |i: int| 0 <= i < vx_it.seq().len() ==> self.resources@.contains_key(*(#[trigger] vx_it.seq()[i]).0)
                         && self.resources@[*vx_it.seq()[i].0] == *vx_it.seq()[i].1) && vx_it.seq().no_duplicates()'''),
+                ('events_so_far_applicable', 'forall |i: int| 0 <= i < res@.len() ==> ev_ok(*self, #[trigger] res@[i]) && !(res@[i] is ChildRemoved)'),
                 ('classes_done_or_to_come', f'''forall |n: ResourceClassName| #[trigger] self.resources@.contains_key(n) ==>
                         {pred}(res@, n, self.resources@[n], child_keys(*child, n))
                         || exists |j: int| vx_it.index@ <= j < vx_it.seq().len() && *(#[trigger] vx_it.seq()[j]).0 == n''')]
@@ -184,6 +194,8 @@ impl CsrInfo { pub fn key_id(&self) -> KeyIdentifier { unimplemented!() } }
                  ('every_certificate_of_the_child_is_revoked', '''r is Ok ==> forall |n: ResourceClassName| #[trigger] self.resources@.contains_key(n) ==>
                         class_removed(r->Ok_0@, n, self.resources@[n], child_keys(self.children@[*child_handle], n))'''),
                  ('child_removed_last', 'r is Ok ==> r->Ok_0@.len() > 0 && r->Ok_0@.last() == (CertAuthEvent::ChildRemoved { child: *child_handle })'),
+                 ('replayable_only_known_classes_named_and_the_child_removed_last', '''r is Ok ==> (forall |i: int| 0 <= i < r->Ok_0@.len() ==> ev_ok(*self, #[trigger] r->Ok_0@[i]))
+                        && (forall |i: int| 0 <= i < r->Ok_0@.len() - 1 ==> !(#[trigger] r->Ok_0@[i] is ChildRemoved))'''),
                  ('unknown_child_refused', '!self.children@.contains_key(*child_handle) ==> r is Err'),
              ],
              loops={0: {'iter': 'vx_it', 'invariant': outer_inv('class_removed')},
@@ -200,6 +212,7 @@ impl CsrInfo { pub fn key_id(&self) -> KeyIdentifier { unimplemented!() } }
              ensures=[
                  ('every_certificate_of_the_child_is_suspended', '''r is Ok && !(self.children@[*child_handle].state is Suspended) ==> forall |n: ResourceClassName| #[trigger] self.resources@.contains_key(n) ==>
                         class_suspended(r->Ok_0@, n, self.resources@[n], child_keys(self.children@[*child_handle], n))'''),
+                 ('replayable_only_known_child_and_classes_named', 'r is Ok ==> forall |i: int| 0 <= i < r->Ok_0@.len() ==> ev_ok(*self, #[trigger] r->Ok_0@[i])'),
                  ('already_suspended_is_a_noop', 'self.children@.contains_key(*child_handle) && self.children@[*child_handle].state is Suspended ==> r is Ok && r->Ok_0@.len() == 0'),
              ],
              loops={0: {'iter': 'vx_it', 'invariant': outer_inv('class_suspended')},
